@@ -206,7 +206,8 @@ def evaluate(acc, text, must_reject=None, label='soup'):
                  sample={'text': text[:120], 'result': 'rejected',
                          'message': errors.strip()[:80]}
                  if nontrivial and len(acc.samples) < 2 else None)
-        if not re.search(r'Line \d+:', errors):
+        # "Line 0" is not a line of the text
+        if not re.search(r'Line [1-9]\d*:', errors):
             acc.fail('rejected-without-line',
                      '{!r} was rejected with message {!r}, which names no '
                      'line'.format(text[:200], errors[:80]), case)
@@ -473,6 +474,9 @@ def _l_statement(draw, depth, in_matrix=False):
         return [draw(st.sampled_from(['set', 'on', 'off', 'set']))] + \
             _l_target(draw, depth)
     if kind <= 7 or (in_matrix and kind <= 10):
+        if draw(st.integers(0, 7)) == 0:
+            return ['stage', 'begin'] + _l_block(draw, depth - 1, True) + \
+                ['end']
         out = ['stage']
         for word in draw(st.permutations(['row', 'column'])):
             if draw(st.booleans()):
@@ -552,6 +556,13 @@ def _l_statement(draw, depth, in_matrix=False):
 @st.composite
 def plausible(draw):
     tokens = list(L_PRELUDE) if draw(st.integers(0, 4)) > 0 else []
+    if draw(st.integers(0, 3)) == 0:
+        # a routine made of staging commands in all their forms, called
+        # where no matrix block is open
+        tokens += ['define', 'k', 'begin']
+        for _ in range(draw(st.integers(1, 2))):
+            tokens += _l_statement(draw, 2, in_matrix=True)
+        tokens += ['end', 'k']
     for _ in range(draw(st.integers(1, 5))):
         tokens += _l_statement(draw, 3)
     return ' '.join(tokens)
@@ -602,7 +613,7 @@ def rule_breakers(draw):
     text = printer.to_text(program)
     kind = draw(st.sampled_from(
         ['break', 'break', 'return', 'assign-macro', 'redefine-macro',
-         'redefine-routine',
+         'redefine-routine', 'redefine-across-kinds',
          'undefined-name',
          'nested-routine', 'missing-end', 'unbalanced', 'bad-pattern',
          'undefined-call']))
@@ -644,6 +655,16 @@ def rule_breakers(draw):
         return ('define QQ 5\n' + text + '\n' + between + '\ndefine QQ ' +
                 draw(st.sampled_from(['6', '"s"', '5'])),
                 'macro defined twice')
+    if kind == 'redefine-across-kinds':
+        # one name, defined once as a macro and once as a routine
+        first, second = draw(st.sampled_from([
+            ('define QQ 240', 'define QQ println "x"'),
+            ('define QQ 240', 'define QQ begin wait end'),
+            ('define QQ 240', 'define QQ with a begin wait end'),
+            ('define QQ println "x"', 'define QQ "Table"'),
+            ('define QQ begin wait end', 'define QQ 5')]))
+        return (first + '\n' + text + '\n' + second,
+                'name defined twice (macro and routine)')
     if kind == 'redefine-routine':
         # a routine cannot be defined twice, whatever was done to its name
         # in between
